@@ -362,6 +362,7 @@ pub struct CaseResult {
 pub fn run_case<'a>(spec: &CaseSpec, source: Source<'a>, driver: Option<&'a mut Driver>, log: Option<&'a mut std::fs::File>, stop_on_failure: bool) -> CaseResult {
     tok::reset_ledger();
     FREED.store(0, Ordering::SeqCst);
+    crate::exec::LAST_BOX.store(0, Ordering::SeqCst);
     let vals = init_vals(spec.len, spec.zeroed, &spec.uni);
     let owned = spec.uni.owned();
     let oracle = Oracle::new(vals.clone(), spec.has_w, spec.heap, owned);
@@ -381,6 +382,18 @@ pub fn run_case<'a>(spec: &CaseSpec, source: Source<'a>, driver: Option<&'a mut 
             Universe::C12 => universe_case!(C12, spec, ctxr, vals),
         }
     }
+    // a heap buffer that the life-cycle oracle counts as released must really have been deallocated, exactly once
+    // (the hook event alone would also be emitted by a release that forgets the deallocation)
+    if spec.heap && !cfg!(feature = "vmem") && !(stop_on_failure && !ctx.failures.is_empty()) {
+        let addr = crate::exec::LAST_BOX.load(Ordering::SeqCst);
+        if addr != 0 {
+            let frees = crate::alloc_watch::frees_of(addr).unwrap_or(0);
+            if frees != ctx.oracle.freed.min(1) {
+                ctx.failures.push(Failure { kind: "oracle", tags: vec!["C07"], step: ctx.executed.len(), op: "<end of case>".into(),
+                    detail: format!("the allocation holding the heap buffer {} deallocated, the life cycle requires {} release(s) (release events observed: {})", if frees == 0 { "has not been" } else { "has been" }, ctx.oracle.freed, ctx.final_obs.freed) });
+            }
+        }
+    }
     // ownership ledger: by now every token ever created must have been destroyed exactly once
     if owned && !(stop_on_failure && !ctx.failures.is_empty()) {
         let (bad, dz, bc) = tok::LEDGER.with(|l| {
@@ -391,7 +404,8 @@ pub fn run_case<'a>(spec: &CaseSpec, source: Source<'a>, driver: Option<&'a mut 
             (bad, l.drop_zero, l.bad_canary)
         });
         if !bad.is_empty() || bc > 0 {
-            ctx.failures.push(Failure { kind: "oracle", tags: vec!["C08"], step: ctx.executed.len(), op: "<end of case>".into(),
+            // a destructor that ran on something that is not a token (broken canary) was run on a slot that never held a value: C09 as well
+            ctx.failures.push(Failure { kind: "oracle", tags: if bc > 0 { vec!["C08", "C09"] } else { vec!["C08"] }, step: ctx.executed.len(), op: "<end of case>".into(),
                 detail: format!("tokens not destroyed exactly once (id, destructor runs): {:?}; broken canaries: {bc}", &bad[..bad.len().min(8)]) });
         }
         if dz > 0 { ctx.failures.push(Failure { kind: "oracle", tags: vec!["C09"], step: ctx.executed.len(), op: "<end of case>".into(), detail: format!("{dz} destructor run(s) on all-zero slots") }); }
